@@ -107,6 +107,14 @@ def run(tier, seed):
             run.fail(case, "appended file no longer has the prescribed layout for an independent parser: %r" % (e,), kind="oracle")
     # ---------------- (ii) independent writer -> fastavro
     reqs, metas = [], []
+    # corpus witness of F16: a user metadata value that is not UTF-8
+    wdata = spec_write([("avro.schema", b'"long"'), ("user.bin", bytes([0xFF, 0xFE, 0x00]))], b"\x05" * 16, [(1, b"\x02")], "null")
+    try:
+        list(fastavro.reader(io.BytesIO(wdata)))
+        run.notes.append("known finding F16 no longer reproduces on its stored witness")
+    except Exception as e:  # noqa
+        run.fail({"file_hex": wdata.hex(), "tags": ["binary-metadata", "corpus"]},
+                 "reader rejects a layout-valid file of an independent writer: %r" % (e,), kind="oracle")
     for (s, recs, g) in records_schema_cases(seed + 99, scale(tier, 150), hints=False):
         try:
             ps = fastavro.parse_schema(json.loads(json.dumps(s)))
@@ -133,12 +141,16 @@ def run(tier, seed):
             meta.append(("avro.codec", codec.encode()))
         for j in range(rnd.randint(0, 3)):
             meta.insert(rnd.randint(0, len(meta)), ("user%d" % j, rnd.choice([b"", b"v", "é".encode()])))
+        binary_meta = rnd.random() < 0.06 or len(metas) == 0 and not reqs and False
+        if binary_meta:
+            meta.append(("user.bin", bytes([0xFF, 0xFE, 0x00])))
         nchunks = rnd.randint(1, min(4, len(meta)))
         cuts = sorted(rnd.sample(range(1, len(meta)), nchunks - 1)) if nchunks > 1 else []
         chunks = [b - a for a, b in zip([0] + cuts, cuts + [len(meta)])]
         sync = bytes(rnd.getrandbits(8) for _ in range(16))
         data = spec_write(meta, sync, groups, codec, rnd, header_chunks=chunks)
         case = {"schema": s, "n_records": len(recs), "codec": codec, "codec_key_present": any(k == "avro.codec" for k, _ in meta),
+                "tags": ["binary-metadata"] if binary_meta else [],
                 "header_chunks": chunks, "blocks": [n for n, _ in groups], "file_hex": data.hex() if len(data) < 600 else None}
         run.count(case, len(groups) >= 2 or len(chunks) >= 2, ["foreign-file", "codec:" + codec, "chunks:%d" % len(chunks)])
         run.cov["traces_validated_against_impl"] += 1
@@ -165,6 +177,8 @@ def run(tier, seed):
         if why:
             run.fail(case, why, kind="oracle")
             continue
+        if binary_meta:
+            run.notes.append("known finding F16 no longer reproduces (binary metadata accepted)") if "F16" not in run.known_hits and len(run.notes) < 1 else None
         # correspondence: the model's reader on the same bytes
         tab = decomp_table(spec_parse(data), codec)
         reqs.append({"op": "container.read", "schema": to_wire(s), "bytes": data.hex(), "decomp": tab, "codecs": list(CODECS)})
